@@ -35,6 +35,10 @@ pub struct Case {
     /// serialised tree of one of the directories and back the result up into a fresh repository
     #[serde(default)]
     pub collide: Option<(u16, bool)>,
+    /// after the first backup: edit the source and back it up again into the same repository with
+    /// the library's default options (the previous snapshot is found and used as parent)
+    #[serde(default)]
+    pub second: Option<Vec<crate::r#gen::Edit>>,
 }
 
 pub fn tree_params(cfg: &RepoCfg, thorough: bool) -> TreeParams {
@@ -59,15 +63,17 @@ fn strategy(ctx: &Ctx) -> BoxedStrategy<Case> {
                 prop::collection::vec((any::<u16>(), any::<u16>(), any::<u16>()), 0..6),
                 prop::bool::weighted(0.6),
                 prop::option::weighted(0.3, (any::<u16>(), any::<bool>())),
+                prop::option::weighted(0.35, prop::collection::vec(crate::r#gen::edit(p), 1..4)),
             )
         })
-        .prop_map(|(cfg, tree, sched, windows, restore, collide)| Case {
+        .prop_map(|(cfg, tree, sched, windows, restore, collide, second)| Case {
             cfg,
             tree,
             sched,
             windows,
             restore,
             collide,
+            second,
         })
         .boxed()
 }
@@ -279,6 +285,49 @@ pub fn run(c: &Case, ctx: &Ctx) -> Outcome {
         out = out.class("restored");
     }
 
+    // second generation: the everyday path, a backup that finds the previous snapshot as parent
+    let mut full = full;
+    if let Some(edits) = &c.second {
+        let mut tree2 = c.tree.clone();
+        let mut changed = false;
+        for e in edits {
+            let eff = crate::r#gen::apply_edit(&mut tree2, e, 1000);
+            changed |= eff.content_changed || eff.structural;
+        }
+        let model2 = flatten(&tree2);
+        let repo2 = match crate::repo::open_ids(&storage, &c.cfg) {
+            Ok(r) => r,
+            Err(e) => fail!("{e}"),
+        };
+        let snap2 = match backup_tree(
+            &repo2,
+            &tree2,
+            &c.sched,
+            &rustic_core::BackupOptions::default(),
+            snap_template(1_700_000_100, "host", "", ""),
+        ) {
+            Ok(s) => s,
+            Err(e) => fail!("second backup (default options): {e}"),
+        };
+        drop(repo2);
+        full = match open_full(&storage, &c.cfg) {
+            Ok(r) => r,
+            Err(e) => fail!("after the second backup: {e}"),
+        };
+        for (what, s, m) in [("second", &snap2, &model2), ("first", &snap, &model)] {
+            let g = match read_snapshot(&full, s, true) {
+                Ok(g) => g,
+                Err(e) => fail!("after the second backup the {what} snapshot cannot be read: {e}"),
+            };
+            if let Some(d) = compare(m, &g, &CmpOpts { full_meta: true, content: true }) {
+                fail!("after the second backup (default options, previous snapshot as parent) the {what} snapshot differs from its source: {d}");
+            }
+        }
+        out = out
+            .class("second_backup_with_parent")
+            .class_if(changed, "second_backup_of_changed_source");
+    }
+
     if let Err(e) = check_repo(&full, true) {
         fail!("after backup: {e}");
     }
@@ -305,7 +354,7 @@ pub fn spec() -> PropSpec {
     PropSpec {
         id: "C01",
         level: "exploration",
-        rule: "proptest: repository configuration (version 1/2, compression unset/0/−7..22, rabin with average 2^6..2^11 and generated min/max, fixed-size chunker 1..70000, library-default chunker, tree/data pack size 0..400 kB with grow factor and limit, extra-verify) x source tree (≤4–6 children per directory, depth ≤4–5; files sized relative to the chunk size: 0, 1, <64, around one chunk, 1–6 chunks, 6–30 chunks; random / zero / periodic / literal content; names: ASCII, shell/JSON specials, multi-byte UTF-8, invalid UTF-8, 150–250 byte names, names sorting around '/'; symlinks with arbitrary-byte targets; hardlink groups; setuid/sticky bits; mtimes incl. pre-1970, far future, nanoseconds) fed through an in-memory ReadSource with generated read fragmentation. Non-trivial = a file of ≥2 chunks, ≥2 packs and a name that is not plain alphanumeric; distinct by hash of the case.",
+        rule: "proptest: repository configuration (version 1/2, compression unset/0/−7..22, rabin with average 2^6..2^11 and generated min/max, fixed-size chunker 1..70000, library-default chunker, tree/data pack size 0..400 kB with grow factor and limit, extra-verify) x source tree (≤4–6 children per directory, depth ≤4–5; files sized relative to the chunk size: 0, 1, <64, around one chunk, 1–6 chunks, 6–30 chunks; random / zero / periodic / literal content; names: ASCII, shell/JSON specials, multi-byte UTF-8, invalid UTF-8, 150–250 byte names, names sorting around '/'; symlinks with arbitrary-byte targets; hardlink groups; setuid/sticky bits; mtimes incl. pre-1970, far future, nanoseconds) fed through an in-memory ReadSource with generated read fragmentation; in 35 % of the cases the source is then edited (1–3 edits: content, add/remove, rename, move, retype, touch, chmod) and backed up again into the same repository with the library's default options, i.e. with the first snapshot as parent, and both snapshots are read back. Non-trivial = a file of ≥2 chunks, ≥2 packs and a name that is not plain alphanumeric; distinct by hash of the case.",
         assumptions: vec![
             "the in-memory ReadSource reproduces the contract of the library's local source (pre-order, siblings sorted by name bytes, size = content length)",
             "restores run as the sandbox user on tmpfs; ownership is compared only when running as root",
